@@ -58,6 +58,26 @@ def two_hop_stop(check, i):
     return {"program": prog, "scripts": gen.make_scripts(steps, {}), "input": inp, "shape": "two_hop_stop", "outcome": {"X": "stopped-before-start"}}
 
 
+def stop_while_running(check, i):
+    """X never ends by itself; the stop source S is released only after X's execution has started, so the stop condition
+    reaches X while it is running: X must get the cancel signal (not be started again, not be left running) and the step that
+    depends on X's regular success output must not run."""
+    rng = random.Random(derive_seed(check.seed, "c04-while", i))
+    on_cancel = rng.choice(["error", "success", "ignore"])
+    X = gen.plugin_step("X", Expr(In("tag")), stop_if=Expr(Ref("S", "outputs", "success", "tag")))
+    if on_cancel == "ignore":
+        X.fields["closure_wait_timeout"] = 30
+    X.stop_mode = "while"
+    steps = [gen.plugin_step("S", Expr(In("tag"))), X, gen.plugin_step("Y", Expr(Ref("X", "outputs", "error", "reason")))]
+    outs = {"x_ok": {"x": gen.tagref("X")}, "x_cancelled": {"y": gen.tagref("Y")}, "x_killed": {"why": Expr(Ref("X", "crashed", "error", "output"))}}
+    scripts = gen.make_scripts(steps, {})
+    scripts["X"]["exec"] = {"outcome": "hang", "on_cancel": on_cancel}
+    scripts["S"]["exec"] = {"outcome": "success", "gate": "x_started"}
+    prog = Program(steps, outs, gen.BASE_INPUT)
+    g = {"program": prog, "scripts": scripts, "input": {"tag": "T1"}, "shape": "stop_while_running/" + on_cancel, "outcome": {"X": "stopped-while-running:" + on_cancel}}
+    return g, [{"kind": "exec-start", "src": "X", "nth": 1, "action": "open:x_started"}]
+
+
 def run(check):
     check.rule = ("a failing (error/alt/crash/drop/deploy failure) or disabled step placed at every position of 6 shapes (enumerated), the two-hop "
                   "stop-before-start construction, plus generated programs; delays between failure notification and dependants via random plans; "
@@ -90,6 +110,10 @@ def run(check):
             opts["plan"] = {"seed": rng.randrange(1 << 30), "prob": 50, "choices": [-1, 1, 4, 12], "max_acts": 12, "record": True}
             opts["plan_scope"] = "execute"
         case, sem = runfam.build_case("c04-%05d" % i, g, **opts)
+        items.append((case, sem, g))
+    for j in range(check.pick(18, 150)):
+        g, trig = stop_while_running(check, j)
+        case, sem = runfam.build_case("c04-w%04d" % j, g, triggers=trig)
         items.append((case, sem, g))
     for j, (g, plan) in enumerate(targeted):
         opts = {"plan": plan, "plan_scope": "execute"} if plan else {}
@@ -130,6 +154,16 @@ def monitor(case, res, sem):
                 vs.append(mon.V("C04", "ordisabled@data", "or-disabled output %s: %s" % (out_id, m)))
     if out_id == "stopped" or (sem.p.steps and getattr(sem.p.steps[-1], "stop_mode", None)):
         pass
+    if any(getattr(s, "stop_mode", None) == "while" for s in sem.p.steps):
+        ev = res.get("events") or []
+        xs = [e for e in ev if e["kind"] == "exec-start" and e["src"] == "X"]
+        sig = [e for e in ev if e["kind"] == "signal" and e["src"] == "X" and e.get("data") == "cancel"]
+        if len(xs) != 1:
+            vs.append(mon.V("C04", "stop@executions:%d" % len(xs), "step X stopped while running was executed %d times" % len(xs)))
+        if xs and not sig:
+            vs.append(mon.V("C04", "stop@no-cancel-signal", "step X was running when its stop condition fired but never received the cancel signal"))
+        if xs and sig and sig[0]["seq"] < xs[0]["seq"]:
+            vs.append(mon.V("C04", "stop@signal-before-start", "cancel signal logged before the execution started"))
     for v in vs:
         if v.prop == "C03" and any(getattr(s, "stop_mode", None) for s in sem.p.steps):
             vs.append(mon.V("C04", "stop@" + v.key, v.what))
